@@ -114,6 +114,15 @@ fn key_bytes_sub(ctx: &Ctx) -> Sub {
             raws.push((label, 1, "rsa-key-form", bytes));
         }
     }
+    // the crafted byte strings of the key alphabet of k2..k4 (keys with bytes added in front, in the middle, behind;
+    // doubled keys; zero-padded scalars): whatever the validity model rejects for a kind, that kind must reject
+    for ver in [2u8, 3, 4] {
+        for (label, bytes) in c08::key_candidates(ver, false) {
+            if bytes.len() > 32 && !raws.iter().any(|r| r.3 == bytes) {
+                raws.push((label, ver, "crafted-key-bytes", bytes));
+            }
+        }
+    }
     let raws = Arc::new(raws);
     let n = raws.len() as u64;
     Sub::new(
